@@ -54,7 +54,7 @@ type PathSummary struct {
 	Obligs     int
 	Discharged int
 	Trivial    int
-	Violations []violation
+	Violations []Violation
 	FeasQ      int
 	Branches   int
 	Steps      int64
@@ -205,7 +205,7 @@ loop:
 	case nil:
 	case pathEnd:
 	case goPanic:
-		// uncaught Go panic in interpreted code: a violation of whatever the harness checks
+		// uncaught Go panic in interpreted code: a Violation of whatever the harness checks
 		label := "panic"
 		in.reportPanic(label, a.msg)
 	case engineError:
@@ -328,7 +328,7 @@ type HarnessResult struct {
 	Incon       map[string]int
 	Covers      map[string]int64
 	Expected    []string
-	Violations  []violation // deduplicated classes
+	Violations  []Violation // deduplicated classes
 	VioCount    map[string]int
 	EngineErrs  map[string]int
 	Samples     []*PathSample
@@ -339,7 +339,7 @@ type HarnessResult struct {
 	Distinct    int
 }
 
-func vioKey(v violation) string {
+func vioKey(v Violation) string {
 	d, _ := json.Marshal(v.Diag)
 	return v.Kind + "|" + v.Label + "|" + string(d)
 }
@@ -517,4 +517,60 @@ func expectedCovers(p *Program, root *ssa.Function) []string {
 	}
 	visit(root)
 	return sortedKeys(labels)
+}
+
+func (r *HarnessResult) ViolationList() []Violation { return r.Violations }
+
+// FuncCoverage returns, per executed repository function, the number of If
+// instructions taken both ways and the total number of If instructions.
+func (r *HarnessResult) FuncCoverage() map[string][2]int {
+	out := map[string][2]int{}
+	for fn := range r.Cov.Fns {
+		both, total := 0, 0
+		for _, b := range fn.Blocks {
+			for _, ins := range b.Instrs {
+				if i, ok := ins.(*ssa.If); ok {
+					total++
+					if r.Cov.T[i] && r.Cov.F[i] {
+						both++
+					}
+				}
+			}
+		}
+		out[fn.String()] = [2]int{both, total}
+	}
+	return out
+}
+
+type HarnessSet struct {
+	PkgName string
+	Names   []string
+}
+
+// HarnessFuncs lists the Verif_* entry points per package directory.
+func (p *Program) HarnessFuncs() map[string]*HarnessSet {
+	out := map[string]*HarnessSet{}
+	for _, sp := range p.Prog.AllPackages() {
+		if !strings.HasPrefix(sp.Pkg.Path(), RepoModule) {
+			continue
+		}
+		for name, m := range sp.Members {
+			fn, ok := m.(*ssa.Function)
+			if !ok || !strings.HasPrefix(name, "Verif_") || fn.Signature.Params().Len() != 0 {
+				continue
+			}
+			file := p.Prog.Fset.Position(fn.Pos()).Filename
+			dir := file[:strings.LastIndex(file, "/")]
+			hs := out[dir]
+			if hs == nil {
+				hs = &HarnessSet{PkgName: sp.Pkg.Name()}
+				out[dir] = hs
+			}
+			hs.Names = append(hs.Names, name)
+		}
+	}
+	for _, hs := range out {
+		sort.Strings(hs.Names)
+	}
+	return out
 }
